@@ -1578,7 +1578,10 @@ func (e *Engine) localType(fn *ssa.Function, name string) types.Type {
 			for _, in := range b.Instrs {
 				if d, ok := in.(*ssa.DebugRef); ok {
 					if obj := d.Object(); obj != nil {
-						if _, isVar := obj.(*types.Var); isVar && obj.Name() != "_" {
+						if v, isVar := obj.(*types.Var); isVar && obj.Name() != "_" {
+							if v.IsField() || (v.Pkg() != nil && v.Parent() == v.Pkg().Scope()) {
+								continue // fields and package-level variables are not locals of this function
+							}
 							if _, seen := m[obj.Name()]; !seen {
 								m[obj.Name()] = obj.Type()
 							}
